@@ -341,35 +341,34 @@ theorem createMid_ok {env : Env} {par : Parent} {ep : Endpoint} {rq : Req} {t : 
   · rename_i hns
     split at h
     · contradiction
-    · split at h
+    · rename_i batch hb
+      split at h
       · contradiction
-      · rename_i batch hb
+      · rename_i hu
         split at h
         · contradiction
-        · rename_i hu
-          split at h
+        · split at h
           · contradiction
-          · split at h
+          · rename_i hid1
+            split at h
             · contradiction
-            · rename_i hid1
+            · rename_i hid2
               split at h
               · contradiction
-              · rename_i hid2
-                split at h
-                · contradiction
-                · rename_i X hX
-                  refine ⟨batch, X, hb, by omega, ?_, ?_, hX, h⟩
-                  · intro hne
-                    simp [hne] at hid1 hid2
-                    exact ⟨hid1, hid2⟩
-                  · intro hc
-                    simpa [hc] using hns
+              · rename_i X hX
+                refine ⟨batch, X, hb, by omega, ?_, ?_, hX, h⟩
+                · intro hne
+                  simp [hne] at hid1 hid2
+                  exact ⟨hid1, hid2⟩
+                · intro hc
+                  simpa [hc] using hns
 
 
 
 theorem createTail_ok {env : Env} {par : Parent} {ep : Endpoint} {rq : Req} {batch : Bool} {X : List Name} {t : Created}
     (h : createTail env par ep rq batch X = .ok t) :
     ∃ orphan m ttl,
+      (nRoot ∈ X → env.crossNS = false) ∧
       (nRoot ∈ X → nRoot ∈ par.policies) ∧ (nRoot ∈ X → batch = false) ∧
       orphanOf env ep rq = .ok orphan ∧
       parseAndMerge rq (endpointRole ep) batch env.sudo = .ok m ∧
@@ -384,6 +383,9 @@ theorem createTail_ok {env : Env} {par : Parent} {ep : Endpoint} {rq : Req} {bat
             path := pathOf ep, role := endpointRoleName ep } := by
   unfold createTail at h
   simp only at h
+  split at h
+  · contradiction
+  rename_i hr0
   split at h
   · contradiction
   · rename_i hr1
@@ -405,7 +407,9 @@ theorem createTail_ok {env : Env} {par : Parent} {ep : Endpoint} {rq : Req} {bat
               split at h
               · contradiction
               · rename_i hid
-                refine ⟨orphan, m, ttl, ?_, ?_, ho, hm, httl, ?_, hid, ?_⟩
+                refine ⟨orphan, m, ttl, ?_, ?_, ?_, ho, hm, httl, ?_, hid, ?_⟩
+                · intro hx
+                  simpa [hx] using hr0
                 · intro hx
                   simpa [hx] using hr1
                 · intro hx
@@ -870,6 +874,7 @@ theorem create_inv {env : Env} {par : Parent} {ep : Endpoint} {rq : Req} {t : Cr
       (rq.id ≠ .none → env.sudo = true ∧ env.nsChild = false) ∧
       (env.crossNS = true → env.sudo = true) ∧
       resolvePolicies env (endpointRole ep) par (trimStrings rq.policies) rq.noDefault = .ok X ∧
+      (nRoot ∈ X → env.crossNS = false) ∧
       (nRoot ∈ X → nRoot ∈ par.policies) ∧ (nRoot ∈ X → batch = false) ∧
       orphanOf env ep rq = .ok orphan ∧
       parseAndMerge rq (endpointRole ep) batch env.sudo = .ok m ∧
@@ -884,8 +889,8 @@ theorem create_inv {env : Env} {par : Parent} {ep : Endpoint} {rq : Req} {t : Cr
             path := pathOf ep, role := endpointRoleName ep } := by
   obtain ⟨h1, h2, h3, hmid⟩ := create_ok h
   obtain ⟨batch, X, hb, hu, hid, hns, hX, htail⟩ := createMid_ok hmid
-  obtain ⟨orphan, m, ttl, hr1, hr2, ho, hm, httl, hpt, hidc, ht⟩ := createTail_ok htail
-  exact ⟨h1, h2, h3, batch, X, orphan, m, ttl, hb, hu, hid, hns, hX, hr1, hr2, ho, hm, httl, hpt, hidc, ht⟩
+  obtain ⟨orphan, m, ttl, hr0, hr1, hr2, ho, hm, httl, hpt, hidc, ht⟩ := createTail_ok htail
+  exact ⟨h1, h2, h3, batch, X, orphan, m, ttl, hb, hu, hid, hns, hX, hr0, hr1, hr2, ho, hm, httl, hpt, hidc, ht⟩
 
 /-! ### go-glob: the two simplest shapes -/
 
